@@ -65,6 +65,7 @@ type Result struct {
 
 // Ctx carries one stream run: the PRNG, the pipe to the driver, statistics and findings.
 type Ctx struct {
+	goOnly   bool // suppress model operations (Go-side oracles only)
 	stream   string
 	tier     string
 	thorough bool
@@ -252,6 +253,16 @@ func (c *Ctx) newCase() {
 
 // emit records one operation with the result the real code produced.
 func (c *Ctx) emit(op, goOut string) {
+	if c.goOnly {
+		// Go-side oracles only (inputs too large to push through the line protocol in the quick tier): the
+		// operation is recorded for the replay but not sent to the model
+		c.stats.Ops++
+		if len(op) > 4000 {
+			op = op[:4000] + "…"
+		}
+		c.caseOps = append(c.caseOps, op)
+		return
+	}
 	c.stats.Ops++
 	c.caseOps = append(c.caseOps, op)
 	if opsOut != nil {
